@@ -233,6 +233,11 @@ memrchr(const void *s, int c, size_t n) {
 	return (NULL);
 }
 
+/* errno as CBMC's library models it (errno == *__errno_location() == __CPROVER_errno);
+ * written directly so that contracts can name it in their assigns clauses */
+extern __CPROVER_thread_local int __CPROVER_errno;
+#define VF_SET_ENOMEM()	(__CPROVER_errno = ENOMEM)
+
 _Bool nondet_vf_alloc_fails(void);
 _Bool nondet_vf_realloc_in_place(void);
 
@@ -268,11 +273,11 @@ void *
 calloc(size_t nmemb, size_t size) {
 
 	if (size != 0 && nmemb > ((size_t)-1) / size) {
-		errno = ENOMEM;
+		VF_SET_ENOMEM();
 		return (NULL);
 	}
 	if (nondet_vf_alloc_fails()) {
-		errno = ENOMEM;
+		VF_SET_ENOMEM();
 		return (NULL);
 	}
 	return (vf_ini_alloc(nmemb * size, 1));
@@ -285,7 +290,7 @@ realloc(void *ptr, size_t size) {
 
 	if (ptr == NULL) {
 		if (nondet_vf_alloc_fails()) {
-			errno = ENOMEM;
+			VF_SET_ENOMEM();
 			return (NULL);
 		}
 		return (vf_ini_alloc(size, 0));
@@ -302,7 +307,7 @@ realloc(void *ptr, size_t size) {
 		return (NULL);
 	}
 	if (nondet_vf_alloc_fails()) { /* failure leaves the old object untouched */
-		errno = ENOMEM;
+		VF_SET_ENOMEM();
 		return (NULL);
 	}
 	p = vf_ini_alloc(size, 0);
@@ -333,7 +338,7 @@ void *
 reallocarray(void *ptr, size_t nmemb, size_t size) {
 
 	if (size != 0 && nmemb > ((size_t)-1) / size) {
-		errno = ENOMEM;
+		VF_SET_ENOMEM();
 		return (NULL);
 	}
 	return (realloc(ptr, nmemb * size));
